@@ -8,7 +8,7 @@ for d in /tmp/mut_*; do
   tag=$(basename $d | sed 's/mut_//')          # C05b
   prop=${tag:0:3}
   round=${tag:3}
-  id=${prop}_m$([ -z "$round" ] && echo 1 || ([ "$round" = c ] && echo 3 || ([ "$round" = d ] && echo 4 || ([ "$round" = e ] && echo 5 || ([ "$round" = f ] && echo 6 || echo 2)))))
+  id=${prop}_m$([ -z "$round" ] && echo 1 || ([ "$round" = c ] && echo 3 || ([ "$round" = d ] && echo 4 || ([ "$round" = e ] && echo 5 || ([ "$round" = f ] && echo 6 || ([ "$round" = g ] && echo 7 || echo 2))))))
   [ -d seeded/$id ] && continue
   grep -q " $id " work/mutq_started.txt 2>/dev/null && continue
   echo " $id " >> work/mutq_started.txt
